@@ -13,11 +13,11 @@ def main(tier):
         c.run_family('plain', 'c05.py', 'graph', args=['--n=3', '--edges=4'], per_case_timeout=30, chunk=64, nsamples=2)
         c.run_family('plain', 'c05.py', 'variant', args=['--n=3', '--edges=2'], per_case_timeout=20, chunk=200, nsamples=1)
     return c.finish(
-        rule='every dependency graph on n <= 3 variables (definition kind of each variable in {initial value, explicit equation, ODE, implicit equation} x every read set over the other '
+        rule='every dependency graph on n <= 3 variables (definition kind of each variable in {initial value, explicit equation, ODE, implicit equation, implicit equation with an initial guess (reading nothing), member of ONE coupled system of >= 2 implicit equations with initial guesses} x every read set over the other '
              'variables and the variable of integration, explicit definitions acyclic; quick: at most 1 read edge for n = 3, thorough: at most 4) x every placement of the variables over two '
              'connected components; each case analyses the model under 9 transformations (component / variable / equation order, three renamings incl. a twin that borrows the name of a '
              'different variable); variants: each equation dropped, each equation duplicated, each state initial value dropped; judged = analyses compared with ground truth, '
-             'well-formedness rules and cross-transformation invariance; the identity transformation is also compiled, run (C and Python) and compared with reference values',
+             'well-formedness rules and cross-transformation invariance; the identity transformation is also compiled, run (C and Python) and compared with reference values at two evaluation points: after the usual call sequence, and after the states were moved as an integrator would and ONLY computeVariables was called',
         assumptions=[
             'roles follow the documentation of AnalyserVariable::Type: initial value only = constant; explicit equation over constants = computed constant; anything depending on a state or the VOI = algebraic; '
             'a variable obtained from an implicit (NLA) equation over constants only may be algebraic or computed constant (undocumented) and so may explicit variables that depend on it',
@@ -25,4 +25,6 @@ def main(tier):
             'implicit unknowns carry no initial value: an initialised variable inside an implicit equation is indistinguishable from an unknown with an initial guess',
             'a dependency on the ODE of a state that is read is not an ordering constraint (the state value comes from the integrator)',
             'duplicating an equation that mentions an initialised constant may legitimately be read as an NLA system for that variable',
+            'a coupled system is recognised by libcellml only through initialised unknowns (its own fixtures do the same): every member carries an initial guess and reads states / the VOI only',
+            'second evaluation point: the VOI is not moved (by design computeVariables computes again only state/rate-based equations, so a variable that depends on the VOI alone and is needed by a rate is as fresh as the last computeRates call - observed, not judged); rates are not compared there',
         ])
